@@ -166,13 +166,26 @@ def build_harness(work):
     return (out if r.returncode == 0 else None), r.stdout
 
 
-def harness_gen(binp, family, n, seed, mode, tier, timeout=3000):
-    r = subprocess.run(['timeout', str(timeout), binp, family, 'gen', '-n', str(n), '-seed', str(seed),
-                        '-mode', mode, '-tier', tier], stdout=subprocess.PIPE, stderr=subprocess.PIPE, text=True,
-                       env=GOENV)
-    if r.returncode != 0:
-        raise RuntimeError('harness %s gen failed (%d): %s' % (family, r.returncode, r.stderr[-3000:]))
-    return [json.loads(l) for l in r.stdout.splitlines() if l.strip()]
+def harness_gen(binp, family, n, seed, mode, tier, timeout=3000, par=1):
+    def one(i):
+        cmd = ['timeout', str(timeout), binp, family, 'gen', '-n', str(n), '-seed', str(seed), '-mode', mode, '-tier', tier]
+        if par > 1:
+            cmd += ['-shard', '%d/%d' % (i, par)]
+        r = subprocess.run(cmd, stdout=subprocess.PIPE, stderr=subprocess.PIPE, text=True, env=GOENV)
+        if r.returncode != 0:
+            raise HarnessCrash('harness %s gen -mode %s failed (exit %d): %s' % (family, mode, r.returncode, r.stderr[-3000:]))
+        return [json.loads(l) for l in r.stdout.splitlines() if l.strip()]
+    if par <= 1:
+        return one(0)
+    with ThreadPoolExecutor(max_workers=par) as ex:
+        parts = list(ex.map(one, range(par)))
+    cases = [c for p in parts for c in p]
+    cases.sort(key=lambda c: c['id'])
+    return cases
+
+
+class HarnessCrash(RuntimeError):
+    pass
 
 
 def harness_run(binp, family, inputs, timeout=600):
@@ -341,7 +354,15 @@ def main():
             n = nt if tier == 'thorough' else nq
             if n == 0:
                 continue
-            cs = harness_gen(binp, fam['name'], n, seed, mode, tier)
+            try:
+                cs = harness_gen(binp, fam['name'], n, seed, mode, tier, par=fam.get('par', 1))
+            except HarnessCrash as e:
+                # the implementation took the harness process down (fatal error, deadlock, timeout):
+                # nothing was observed, the property is no longer shown to hold
+                nofail.append(dict(family=fam['name'], kind='harness-crash',
+                                   what='the harness process running the implementation died in mode %s' % mode,
+                                   detail=str(e)[-2500:]))
+                continue
             for c in cs:
                 c['_src'] = mode
             cases += cs
@@ -386,7 +407,7 @@ def main():
                 more = []
                 for (mode, nq, nt) in fam['runs']:
                     try:
-                        more += harness_gen(binp, fam['name'], max(nq, 1) * 2, seed + 1000 * extra, mode, 'thorough' if extra == 3 else tier)
+                        more += harness_gen(binp, fam['name'], max(nq, 1) * 2, seed + 1000 * extra, mode, 'thorough' if extra == 3 else tier, par=fam.get('par', 1))
                     except Exception:
                         pass
                     if len(more) > 20000:
